@@ -11,6 +11,7 @@
     checked against the built binary on generated trees by the check itself. *)
 From Coq Require Import Permutation.
 From GFS Require Import Base Path Listing Seqls Pipeline PipelineProofs WalkProofs.
+From GFS Require Fastwalk GenFastwalk FastwalkProofs.
 
 Section C17.
 Variable job : Type.
@@ -99,3 +100,59 @@ Print Assumptions walk_always_terminates.
 Print Assumptions trees_without_dot_entries_are_acyclic.
 Print Assumptions walk_visits_each_directory_exactly_once.
 Print Assumptions each_link_target_followed_at_most_once.
+
+(** ---- fastwalk.Walk: the termination-detection protocol of the concurrent directory walker ----
+    The coordinator's select loop is TRANSLATED from cmd/seqls/internal/fastwalk/fastwalk.go on every
+    run (Gen/GenFastwalk.v, [GenFastwalk.coordinator]); the worker side is modelled by hand
+    (Model/Fastwalk.v) and its source text is pinned by the translator.  For every tree, every number
+    of workers, every channel capacity and EVERY schedule. *)
+
+Import Fastwalk FastwalkProofs.
+
+(** tie T: the program the source reads as today is the one the proofs are about *)
+Lemma generated_coordinator_is_the_proved_one : GenFastwalk.coordinator = reference_coord.
+Proof. reflexivity. Qed.
+
+(** when Walk returns, every directory (not below a SkipDir) has been walked exactly once *)
+Theorem fastwalk_walks_every_directory_exactly_once : forall nw cap root s, 1 <= cap ->
+  reachable GenFastwalk.coordinator cap nw root s -> s_returned s = true ->
+  Permutation (s_walked s) (live root).
+Proof. rewrite generated_coordinator_is_the_proved_one. exact fastwalk_complete. Qed.
+
+(** at no moment has a directory been walked twice, or one that is not in the tree *)
+Theorem fastwalk_never_walks_twice : forall nw cap root s,
+  reachable GenFastwalk.coordinator cap nw root s ->
+  exists rest, Permutation (s_walked s ++ rest) (live root).
+Proof. rewrite generated_coordinator_is_the_proved_one. exact fastwalk_never_twice. Qed.
+
+(** the walk cannot get stuck before it returns *)
+Theorem fastwalk_never_deadlocks : forall nw cap root s, 1 <= nw -> 1 <= cap ->
+  reachable GenFastwalk.coordinator cap nw root s -> s_returned s = false ->
+  exists l s', step GenFastwalk.coordinator cap s l = Some s'.
+Proof. rewrite generated_coordinator_is_the_proved_one. exact fastwalk_no_deadlock. Qed.
+
+(** every schedule is finite: at most 7 steps per directory *)
+Theorem fastwalk_always_terminates : forall nw cap root ls s,
+  run GenFastwalk.coordinator cap (init nw root) ls = Some s ->
+  List.length ls + 2 <= 7 * List.length (live root).
+Proof. rewrite generated_coordinator_is_the_proved_one. exact fastwalk_schedule_bound. Qed.
+
+(** the theorem has teeth: without the final re-check of the enqueue channel it is false *)
+Theorem fastwalk_without_recheck_is_wrong :
+  exists nw cap root ls s, 1 <= cap /\ run early_return_coord cap (init nw root) ls = Some s /\
+    s_returned s = true /\ ~ Permutation (s_walked s) (live root).
+Proof. exact early_return_is_wrong. Qed.
+
+(** the search used by the check is sound: a reported schedule really is a failing run *)
+Theorem fastwalk_search_is_sound : forall fuel c nw cap root sch w,
+  explore fuel c nw cap root = Incomplete sch w ->
+  exists s, run c cap (init nw root) sch = Some s /\ s_returned s = true /\ s_walked s = w /\
+            ~ Permutation w (live root).
+Proof. exact explore_sound. Qed.
+
+Print Assumptions fastwalk_walks_every_directory_exactly_once.
+Print Assumptions fastwalk_never_walks_twice.
+Print Assumptions fastwalk_never_deadlocks.
+Print Assumptions fastwalk_always_terminates.
+Print Assumptions fastwalk_without_recheck_is_wrong.
+Print Assumptions fastwalk_search_is_sound.
